@@ -7,7 +7,7 @@ from harness import C01_matcher
 from vk.ob import obligation
 
 
-@obligation(funcs=["storage.kv.planner", "storage.kv.compile_match_from_query"], params=range(8), timeout=(200, 900),
+@obligation(funcs=["storage.kv.planner", "storage.kv.compile_match_from_query"], params=range(8), timeout=(400, 1200),
             bounds=C01_matcher.ob_matcher_vs_reference._vk["bounds"])
 def ob_matcher_complete(idsel: int, pksel: int, kind: int, ts: int, t1: List[int], t2: List[int], two: bool,
                         f_h1: int, f_h2: int, f_two: bool, k1: int, k2: int, since: int, until: int,
